@@ -57,10 +57,10 @@ def duplex (F : Perm) (m : Mode) : Strobe → Bytes → Strobe × Bytes
 
 /-- `begin_op` after the direction flag has been resolved: absorb `[old pos_begin, flags]`, run
 `F` when the operation uses cipher output and the position is not already 0. -/
+def markBegin (s : Strobe) : Strobe := { s with posBegin := s.pos + 1 }
+
 def beginOp (F : Perm) (s : Strobe) (flags : UInt8) (forceF : Bool) : Strobe :=
-  let old := s.posBegin
-  let s1 : Strobe := { s with posBegin := s.pos + 1 }
-  let s2 := (duplex F mAbsorb s1 [UInt8.ofNat old, flags]).1
+  let s2 := (duplex F mAbsorb (markBegin s) [UInt8.ofNat s.posBegin, flags]).1
   if forceF && s2.pos != 0 then runF F s2 else s2
 
 /-- direction handling for transport (`T`) operations: the first one fixes `is_receiver`; the
